@@ -505,7 +505,11 @@ class Builder:
         g = self.ph_generic
         first = step_names[0] if step_names else "none"
         tmpl = rng.choice(["{P1}", "{P2}", "{P-1}", "a{P1}b{P2}", "{{P1}}", "{{{P2}}}", "}}{{", "{P2}{P2}", "plain",
-                           "{%s}" % self.ph_name("S", first)])
+                           "{%s}" % self.ph_name("S", first)] +
+                          # fields str.format cannot fill from a keyword set, or malformed templates, next to a named
+                          # placeholder: the whole argument is refused, it is never passed on unsubstituted
+                          (["{}_{P1}", "{0}{P2}", "{_{P1}", "}_{P2}", "{P1}_{}", "find;-exec;cat;{};touch;{P2}"]     # (no blanks: the log is read word by word)
+                           if self.o.get("ph_malformed", True) else []))
         for nm in ("P1", "P2", "P-1"):
             if "{%s}" % nm in tmpl.replace("{{P1}}", ""):
                 self.ph_generic(nm)
@@ -586,7 +590,7 @@ class Builder:
         name = step
         if variant == "replayed_name":
             # another step's name, or a name that merely contains / is contained in this step's name
-            name = rng.choice((other_steps or [step + "x"]) + [step[:-1] or "s", step[1:] or "s", step + "x", step.upper() if step.upper() != step else step + "_"])
+            name = rng.choice((other_steps or [step + "x"]) + [step[:-1] or "s", step[1:] or "s", step + "x", step.upper() if step.upper() != step else step + "_", ""])
         link = Link(name=name, materials=M2, products=P2, command=["build"],
                     byproducts=rng.choice([{}, {"return-value": 0, "stdout": "é\n", "stderr": ""}]))
         is_dsse = self.dsse()
@@ -756,7 +760,7 @@ class Builder:
         name = step
         if variant == "replayed_name":
             # another step's name, or a name that merely contains / is contained in this step's name
-            name = rng.choice((other_steps or [step + "x"]) + [step[:-1] or "s", step[1:] or "s", step + "x", step.upper() if step.upper() != step else step + "_"])
+            name = rng.choice((other_steps or [step + "x"]) + [step[:-1] or "s", step[1:] or "s", step + "x", step.upper() if step.upper() != step else step + "_", ""])
         link = Link(name=name, materials=M2, products=P2, command=["build"],
                     byproducts=rng.choice([{}, {"return-value": 0, "stdout": "é\n", "stderr": ""}]))
         if variant == "family_mismatch":
@@ -996,7 +1000,9 @@ def build(rng, env, opts, workdir):
             del vkeys[owners[0].keyid]
             b.tags.append("key_subset")
     params = None
-    if opts.get("params"):
+    if "params_fixed" in opts:
+        params = copy.deepcopy(opts["params_fixed"])     # a given (usually empty) parameter set: substitution is the identity
+    elif opts.get("params"):
         params = rng.choice([{"P1": "*", "P2": "x"}, {"P1": "{P2}", "P2": "{{}}"}, {"P1": "a"}, {"P1": "", "P2": "", "P3": "z"},
                              {"P-1": "x", "P1": "[ab]*", "P2": "}"}, {"P 1": "x"}, {"P1": 1, "P2": "x"}])
     now = NOW_US
@@ -1016,7 +1022,8 @@ def build(rng, env, opts, workdir):
         except ValueError:
             pass
     scen = {"root": {"json": root, "spec": b.last_layout_spec}, "dir": tree, "keys": vkeys, "params": params, "now_us": now,
-            "tags": b.tags, "logpath": abs_logpath, "layouts": b.layouts, "specs": b.specs, "depth_tags": b.depth_tags}
+            "tags": b.tags, "logpath": abs_logpath, "layouts": b.layouts, "specs": b.specs, "depth_tags": b.depth_tags,
+            "persist": opts.get("persist")}
     if opts.get("ph"):
         seq, kinds = ph_params_seq(rng, b.ph_used, opts.get("seq", True))
         scen["params_seq"] = seq
@@ -1322,7 +1329,8 @@ def run_impl(scen, workdir, times=1, params_seq=None, scrub=False):
                 summary = vl.in_toto_verify(md, copy.deepcopy(scen["keys"]), link_dir_path=linkdir,
                                             substitution_parameters=_as_passed(params, scen), inspect_timeout=5,
                                             # the API-only option must not change what is checked (derived from the scenario, not from rng)
-                                            persist_inspection_links=(len(json.dumps(scen["root"], sort_keys=True, default=str)) % 3 != 0))
+                                            persist_inspection_links=(scen["persist"] if scen.get("persist") is not None else
+                                                                      len(json.dumps(scen["root"], sort_keys=True, default=str)) % 3 != 0))
                 import attr
                 out = {"ok": attr.asdict(summary)}
             except Exception as e:  # noqa
